@@ -444,4 +444,5 @@ var FragileRules = map[string]bool{
 	"test.exitguard": true, "ignore.slots": true, "ignore.symmetry": true, "ignore.clauses": true, "ignore.emptyrule": true, "ignore.filter": true, "ignore.pairing": true, "ignore.nesting": true, "ignore.funnel": true,
 	// C16 / C17 / C20
 	"fsatomic.rename": true, "hdr.quote": true, "hdr.canon": true, "tmpl.escape": true, "tmpl.fields": true, "tmpl.ident": true, "tmpl.acl": true, "tmpl.hex": true,
+	"sm.hashseed": true, "err.token": true, "test.defsrestore": true,
 }
